@@ -172,6 +172,34 @@ let c09 tys vals prevs =
   Printf.sprintf "enc=%s blen=%s dec=%s spec_enc=%s spec_blen=%s spec_dec=%s"
     (rs hb enc) (hn (flat_len t v)) dec (hb sbytes) (hn (n_of_int (List.length sbytes))) (sval v)
 
+(* EncodingWriter.WriteOffset / WriteByte / WriteUint16/32/64 *)
+let woff prev size =
+  match w_offset (nh prev) (nh size) with
+  | OK (off, bs) -> "OK " ^ hn off ^ " " ^ hb bs
+  | Err -> "ERR" | Panic -> "PANIC"
+let wprim w x =
+  let w = nh w in
+  let x = N.modulo (nh x) (N.pow (n_of_int 256) w) in
+  hb (le_bytes (nat_of_int (int_of_n w)) x) ^ " n=" ^ hn w
+let c09x tys vals = Printf.sprintf "enc=%s" (rs hb (flat_enc (ty_of tys) (val_of vals)))
+
+(* the As* cast helpers: which helper accepts which kind of view (view/*.go) *)
+let ascast h zh helper tys vals mode =
+  let t = ty_of tys and v = val_of vals in
+  let accepts = match t with
+    | TUint w -> (match int_of_n w with
+        | 1 -> ["uint8"; "byte"] | 2 -> ["uint16"] | 4 -> ["uint32"] | 8 -> ["uint64"] | 32 -> ["uint256"] | _ -> [])
+    | TBool -> ["bool"] | TRoot -> ["root"]
+    | TBytes k -> "smallbytevec" :: (match int_of_n k with 4 -> ["bytes4"] | 8 -> ["bytes8"] | 16 -> ["bytes16"] | _ -> [])
+    | TBitvector _ -> ["bitvector"] | TBitlist _ -> ["bitlist"]
+    | TVector (e, _) -> if is_basic_elem e then ["basicvector"] else ["complexvector"]
+    | TList (e, _) -> if is_basic_elem e then ["basiclist"] else ["complexlist"]
+    | TContainer _ -> ["container"] | TUnion _ -> ["union"] in
+  if mode = "err" || not (List.mem helper accepts) then "ERR" else
+  match t with
+  | TUint _ | TBool | TRoot | TBytes _ -> "OK " ^ sval v
+  | _ -> (match from_val zh t v with OK n -> "OK " ^ hb (root_of h n) | _ -> "ERR")
+
 let c10 tys data =
   let t = ty_of tys in
   let bs = bytes_of_hex data in
@@ -228,6 +256,38 @@ let c17 h zh tys vals =
       (let g = get_all_fast t n in
        if g = [IErr] || g = [IPanic] then show_steps h g else show_steps h (g @ [IEnd; IEnd; IEnd]))
       (show_steps h (get_all_fast t n)) fv
+  | Err -> "ro=ERR ix=ERR get=ERR" | Panic -> "ro=PANIC ix=PANIC get=PANIC"
+
+(* the same observations on a malformed backing: the node at gindex g replaced by a pair of
+   two copies of itself ("graft": a pair where the type expects a chunk) or by its summary
+   root ("summ": data missing).  Get(i) = node lookup + ViewFromBacking of the element type. *)
+let c17g h zh tys vals kind g =
+  let t = ty_of tys and v = val_of vals in
+  match from_val zh t v with
+  | OK n0 ->
+    let n' = if kind = "biglen" then
+        (match t with
+         | TList (_, k) | TBitlist k ->
+           setter zh n0 (n_of_int 3) false (Leaf (pad32 (le_bytes (nat_of_int 8) (N.add k (n_of_int 1)))))
+         | _ -> Err)
+      else if kind = "graft" then
+        (match getter n0 (nh g) with
+         | OK l -> setter zh n0 (nh g) false (Pair (l, l))
+         | Err -> Err | Panic -> Panic)
+      else summarize zh h n0 (nh g) in
+    (match n' with
+     | OK n ->
+       let chk s = match s with
+         | INode (t', m) when not (view_from_backing_ok t' m) -> IErr
+         | s -> s in
+       let g = List.map chk (get_all_fast t n) in
+       let len_ok = match t with
+         | TBitlist k | TList (_, k) -> (match list_length k n with OK _ -> true | _ -> false)
+         | _ -> true in
+       Printf.sprintf "ro=%s ix=%s get=%s" (show_steps h (ro_iter t n (nat_of_int 3)))
+         (if not len_ok then show_steps h g else show_steps h (g @ [IEnd; IEnd; IEnd]))
+         (show_steps h g)
+     | Err -> "ro=ERR ix=ERR get=ERR" | Panic -> "ro=PANIC ix=PANIC get=PANIC")
   | Err -> "ro=ERR ix=ERR get=ERR" | Panic -> "ro=PANIC ix=PANIC get=PANIC"
 
 (* ---- C19 ---- *)
@@ -376,6 +436,11 @@ let dispatch set_cfg cur_h cur_zh (op : string) (args : string list) : string =
   | "c09", [t; v; prev] -> c09 t v prev
   | "c10", [t; data] -> c10 t data
   | "c17", [t; v] -> set_cfg "sha"; c17 !cur_h !cur_zh t v
+  | "ascast", [helper; t; v; mode] -> set_cfg "sha"; ascast !cur_h !cur_zh helper t v mode
+  | "woff", [prev; size] -> woff prev size
+  | "wprim", [w; x] -> wprim w x
+  | "c09x", [t; v] -> c09x t v
+  | "c17g", [t; v; kind; g] -> set_cfg "sha"; c17g !cur_h !cur_zh t v kind g
   | "u8htr", [cfg; kind; data; limit] -> set_cfg cfg; u8htr !cur_h !cur_zh kind data limit
   | "encdec", [t; v] -> encdec t v
   | "decraw", [t; data] -> decraw t data
